@@ -66,8 +66,10 @@ func (k Keeper) SendNftTransfer(
 		telemetry.NewLabel(coretypes.LabelDestinationChain, destChain),
 	}
 
-	// determine whether nft is sent from the source chain or sent back to the source chain from other chains
-	awayFromOrigin := k.determineAwayFromOrigin(fullClassPath, destChain)
+	// determine whether nft is sent from the source chain or sent back to the source chain from other chains.
+	// Only a voucher class (tibc-<hash>, resolved to its recorded path above) can travel back towards its
+	// origin; a native class is always sent away, whatever its name looks like.
+	awayFromOrigin := !strings.HasPrefix(class, CLASSPREFIX) || k.determineAwayFromOrigin(fullClassPath, destChain)
 
 	// get the next sequence
 	sequence := k.pk.GetNextSequenceSend(ctx, sourceChain, destChain)
